@@ -166,5 +166,13 @@ func TestC11Sweep(t *testing.T) {
 		cases = append(cases, c11Case{NumByte: nb, Kind: "nibbleAlphabet", Seed: uint64(nb), Alpha: []int{1, 0xB}})
 		cases = append(cases, c11Case{NumByte: nb, Kind: "constant", Seed: 0})
 	}
+	if envInt("VERIF_LO", 0) == 0 {
+		for _, nb := range []int{65535, 65536, 65537, 65600, 65700, 131072, 1 << 20} {
+			for _, v := range []uint64{0x00, 0xa5, 0xff} {
+				cases = append(cases, c11Case{NumByte: nb, Kind: "constant", Seed: v})
+			}
+			cases = append(cases, c11Case{NumByte: nb, Kind: "uniform", Seed: uint64(nb)}, c11Case{NumByte: nb, Kind: "byteAlphabet", Seed: uint64(nb), Alpha: []int{0, 0, 0, 0, 0, 0, 0, 0, 0, 1, 2, 3}})
+		}
+	}
 	enumerate(t, "C11", cases, checkC11)
 }
